@@ -206,7 +206,7 @@ def run_C07(ctx):
                 # the same composition with every piece through a caller-written `*_with_backend` closure
                 i2, ops2 = 0, []
                 for k in comp:
-                    ops2.append(f"backend {rng.randrange(0, 4)} {hx(data[i2*bs:(i2+k)*bs])}")
+                    ops2.append(f"backend {rng.randrange(0, 5)} {hx(data[i2*bs:(i2+k)*bs])}")
                     i2 += k
                 g.append(Case("block", mode, bs, rng.choice([2, 3]), key, iv, ops=ops2 + ["ivstate"], role="exh-backend"))
             groups.append(g)
